@@ -61,11 +61,12 @@ def _setitem_index(rng, shape):
     return idx
 
 
-def gen_cases(rng: random.Random, n: int, styles):
+def gen_cases(rng: random.Random, n: int, styles, kinds=None):
     from .props import c08
     out = []
     for k in range(n):
-        kind = ["mask", "nonzero", "setitem", "setitem", "setitem_mask"][k % 5]
+        pool = list(kinds) if kinds else ["mask", "nonzero", "setitem", "setitem", "setitem_mask"]
+        kind = pool[k % len(pool)]
         rank = rng.choice([1, 1, 2, 2, 3])
         shape = tuple(rng.choice([1, 2, 3, 4]) for _ in range(rank))
         style = rng.choice(styles)
@@ -163,7 +164,7 @@ def _search(ctx, c, model, outs, rng, why):
 
 def run(ctx, n: int, styles=("static", "symbolic", "none"), label="scatter", kinds=None):
     rng = random.Random(f"scattertie/{label}/{ctx.seed}")
-    cases = [c for c in gen_cases(rng, n, styles) if kinds is None or c.kind in kinds]
+    cases = gen_cases(rng, n, styles, kinds)
     lines = [l for c in cases for l in c.want_lines.values()]
     answers = iter(common.model(lines))
     eval_lines, eval_meta = [], []
